@@ -1029,6 +1029,13 @@ func c10ErrPathNil(c *Ctx, g *CG, cone []*ssa.Function) {
 // and against the identifiers seen so far.
 func c10ProposalIDs(c *Ctx) {
 	const rule = "C10.support"
+	// (F63) the counter is advanced only where its current value was compared with the maximum: a wrapped counter hands
+	// out identifiers of existing proposals (the replaced proposal stays in the active index twice, is closed twice and
+	// the deposits pool cannot cover the last closing proposal).
+	if fn := c.needFn(rule, "consensus/cometbft/apps/governance.(*Application).submitProposal"); fn != nil {
+		ev := CallsTo(fn, "SetNextProposalIdentifier(id+1)", "consensus/cometbft/apps/governance/state.(*MutableState).SetNextProposalIdentifier", "")
+		c.DominatedByCond(rule, fn, "next identifier != 2^64-1", `NextProposalIdentifier\(.*\)#0 != 18446744073709551615$`, ev, "the proposal identifier counter is incremented without a wrap-around check: at 2^64-1 (reachable from a legal genesis document with a large identifier) it wraps to 0 and the next submitted proposal replaces proposal 0 — closed twice, the governance deposits pool runs dry and EndBlock halts the chain (F63)")
+	}
 	fn := c.needFn(rule, "governance/api.SanityCheckProposals")
 	if fn == nil {
 		return
@@ -1132,6 +1139,7 @@ func c05Round4(c *Ctx) {
 	// (a) seed 11 was reported by C09 only: the fee a failed transaction paid stays in the block's fee accumulator, so
 	// its debit must not be rolled back with the transaction.
 	deliverContextRule(c, "C05.pair")
+	c05LoadedAccounts(c)
 	const sp = "consensus/cometbft/apps/staking/state"
 	// (b) the ledger accessor hands out an account only for an address that is valid, i.e. well-formed and NOT one of
 	// the reserved pool addresses: the pools are separate records, and an "account" for a pool address that a handler
@@ -1293,4 +1301,190 @@ func carriesLedger(t types.Type, d int) bool {
 		return carriesLedger(u.Elem(), d+1)
 	}
 	return false
+}
+
+// guardAtoms: the conditions of the branch edges that lead (through unconditional jumps only) into the block of an
+// instruction — for `if a || b { X }` the atoms of X are {a, b}, whether the disjunction is written as one test or as
+// two tests with the same body, so an inventory keyed by atoms does not depend on that spelling.
+func guardAtoms(in ssa.Instruction) []string {
+	seen := map[*ssa.BasicBlock]bool{}
+	atoms := map[string]bool{}
+	var walk func(b *ssa.BasicBlock, d int)
+	walk = func(b *ssa.BasicBlock, d int) {
+		if seen[b] || d > 6 {
+			return
+		}
+		seen[b] = true
+		if len(b.Preds) == 0 {
+			atoms["(unconditional)"] = true
+			return
+		}
+		for _, p := range b.Preds {
+			iff := lastIfOf(p)
+			if iff == nil {
+				walk(p, d+1)
+				continue
+			}
+			for si, s := range p.Succs {
+				if s == b {
+					atoms[normCond(iff.Cond, si == 0)] = true
+				}
+			}
+		}
+	}
+	walk(in.Block(), 0)
+	var out []string
+	for a := range atoms {
+		out = append(out, a)
+	}
+	sort.Strings(out)
+	return out
+}
+
+// c05LoadedAccounts (F64): outside genesis, every account that is stored was loaded from the ledger first — SetAccount
+// replaces the whole record, so a freshly built account destroys the balances, shares and nonce stored under the
+// address (anybody can transfer or escrow to any address beforehand).
+func c05LoadedAccounts(c *Ctx) {
+	const rule = "C05.pair"
+	const set = "consensus/cometbft/apps/staking/state.(*MutableState).SetAccount"
+	n, bad := 0, 0
+	for _, fn := range c.P.ModFuncs {
+		if fn.Blocks == nil {
+			continue
+		}
+		pp := short(fpkgPath(fn))
+		if strings.HasPrefix(pp, "oasis-test-runner") || strings.HasSuffix(pp, "/tests") || strings.Contains(fname(fn), "InitChain") || strings.Contains(fname(fn), "enesis") {
+			continue
+		}
+		for _, call := range callsIn(fn) {
+			if calleeName(call) != set {
+				continue
+			}
+			n++
+			args := allArgs(call)
+			acct := args[len(args)-1]
+			ok := false
+			for _, r := range Roots(acct) {
+				if r.Kind == "param" {
+					ok = true // a helper storing its caller's account (checked at the caller)
+				}
+				if strings.Contains(r.Name, ".Account(") || strings.Contains(r.Name, "Account)") || strings.Contains(r.String(), ").Account(") {
+					ok = true
+				}
+			}
+			if strings.Contains(vstr(acct), ").Account(") {
+				ok = true
+			}
+			if !ok {
+				if reason, tabled := c.Tabled("c05_loaded", fname(fn)); tabled {
+					c.TabledOK(rule, fname(fn)+":the stored account was loaded from the ledger", c.P.InstrPos(call), reason)
+					continue
+				}
+			}
+			if !ok {
+				bad++
+				c.Fail(rule, fname(fn)+":the stored account was loaded from the ledger", c.P.InstrPos(call), "SetAccount stores an account that was not obtained from the ledger ("+vstr(acct)+"): the record under the address is replaced as a whole, so balances, escrow pool shares and the nonce already stored there are destroyed while the total supply and the delegations into the pools stay")
+			}
+		}
+	}
+	// the accumulator cache's accounts map is filled only with what Account() returned
+	nmu, okmu := 0, true
+	for _, fn := range c.P.FuncsInPkg("consensus/cometbft/apps/staking/state") {
+		for _, b := range fn.Blocks {
+			for _, in := range b.Instrs {
+				mu, isMU := in.(*ssa.MapUpdate)
+				if !isMU || !loadsField(mu.Map, "accounts") {
+					continue
+				}
+				nmu++
+				if !strings.Contains(vstr(mu.Value), ").Account(") {
+					okmu = false
+					c.Fail(rule, fname(fn)+":the accumulator cache holds only loaded accounts", c.P.InstrPos(in), "the stake accumulator cache stores an account that is not the result of state.Account: Commit writes its accounts back as whole records")
+				}
+			}
+		}
+	}
+	if okmu {
+		c.Check(nmu > 0, rule, "staking/state:the accumulator cache holds only loaded accounts", "", itoa(nmu)+" map update(s) of the cache, each stores the result of state.Account", "no update of the accumulator cache's accounts map was found (unresolved anchor)")
+	}
+	if bad == 0 {
+		c.OK(rule, "every account stored outside genesis was loaded from the ledger", "", itoa(n)+" SetAccount call sites")
+	}
+	c.Floor(rule, n, 15, "SetAccount call sites outside genesis")
+}
+
+// c10GasMultipliers (F65): UseGas panics for a negative multiplier, and a panic in transaction execution stops block
+// production for as long as the transaction stays in the mempools. A multiplier computed from an unsigned quantity
+// converted to int (an epoch difference, a count from the wire) can be negative or wrap in a product, so every such
+// conversion feeding a multiplier is dominated by a comparison that bounds the converted value.
+func c10GasMultipliers(c *Ctx, cone []*ssa.Function) {
+	const rule = "C10.usub"
+	n, nconv := 0, 0
+	for _, f := range cone {
+		if f.Blocks == nil || !inModule(fpkgPath(f)) {
+			continue
+		}
+		for _, call := range callsIn(f) {
+			if !strings.HasSuffix(calleeName(call), "GasAccountant).UseGas") {
+				continue
+			}
+			n++
+			m := call.Common().Args[0]
+			var convs []*ssa.Convert
+			var walk func(v ssa.Value, d int)
+			walk = func(v ssa.Value, d int) {
+				if d > 6 {
+					return
+				}
+				switch x := v.(type) {
+				case *ssa.BinOp:
+					walk(x.X, d+1)
+					walk(x.Y, d+1)
+				case *ssa.Convert:
+					from, ok1 := x.X.Type().Underlying().(*types.Basic)
+					to, ok2 := x.Type().Underlying().(*types.Basic)
+					if ok1 && ok2 && from.Info()&types.IsUnsigned != 0 && to.Info()&types.IsInteger != 0 && to.Info()&types.IsUnsigned == 0 {
+						convs = append(convs, x)
+					} else {
+						walk(x.X, d+1)
+					}
+				case *ssa.Phi:
+					for _, e := range x.Edges {
+						walk(e, d+1)
+					}
+				}
+			}
+			walk(m, 0)
+			for _, cv := range convs {
+				nconv++
+				bounded := false
+				for _, h := range heldCondVals(call) {
+					bo, ok := h.Cond.(*ssa.BinOp)
+					if !ok {
+						continue
+					}
+					switch bo.Op {
+					case token.LSS, token.LEQ, token.GTR, token.GEQ:
+						// the converted value (possibly under the same widening conversion) is one operand
+						for _, op := range []ssa.Value{bo.X, bo.Y} {
+							for k := 0; k < 2; k++ {
+								if cv2, isConv := op.(*ssa.Convert); isConv {
+									op = cv2.X
+								}
+								if ct, isCT := op.(*ssa.ChangeType); isCT {
+									op = ct.X
+								}
+							}
+							if sameValue(op, cv.X, 0) {
+								bounded = true
+							}
+						}
+					}
+				}
+				c.Check(bounded, rule, fname(f)+":the unsigned value converted for a gas multiplier is bounded", c.P.InstrPos(call), "a comparison of the converted value dominates the call", "the gas multiplier is computed from "+vstr(cv.X)+" converted to a signed integer without a dominating bound on it: a large value (bounded only by a consensus parameter that has no upper limit) makes the multiplier negative and UseGas panics during transaction execution — proposers then build an empty invalid block for as long as the transaction stays in the mempools")
+			}
+		}
+	}
+	c.Floor(rule, n, 20, "UseGas call sites on the cone")
+	c.Extra["gas_multiplier_conversions"] = nconv
 }
